@@ -109,6 +109,10 @@ def selfcheck_kernels(ir, cpu_ops, rng, quick=True):
             if kname not in have:
                 continue
             out = getattr(cpu_ops, kname)(yp.copy(), yt.copy())
+            nret = len(ir["kernels"][kname]["ret"])
+            if not isinstance(out, np.ndarray) or nret != 1:
+                mism.append({"kernel": kname, "case": "returns %s, translated with %d result(s); only single-array results are compared here"
+                             % (type(out).__name__ + ("(%d)" % len(out) if isinstance(out, tuple) else ""), nret)}); continue
             want_shape = (N, 1) if ir["kernels"][kname]["ret"][0][1] == "keep" else (N,)     # the kind IS the reading of the shape
             if out.shape != want_shape:
                 mism.append({"kernel": kname, "case": "result shape %s, translated as %s" % (out.shape, want_shape)}); continue
